@@ -16,6 +16,7 @@ import IsoDT.Driver.Strftime
 import IsoDT.Driver.Construct
 import IsoDT.Driver.RatOps
 import IsoDT.Driver.RatOps2
+import IsoDT.Driver.SpecOps
 
 open IsoDT IsoDT.Model
 open IsoDT.Spec (Date TZ TP)
@@ -323,6 +324,7 @@ def extDispatch (toks : List String) : Option String :=
   <|> IsoDT.Driver.Strftime.dispatch toks
   <|> IsoDT.Driver.RatOps.dispatch toks
   <|> IsoDT.Driver.RatOps2.dispatch toks
+  <|> IsoDT.Driver.SpecOps.dispatch toks
   -- <|> IsoDT.Driver.Foo.dispatch toks
 
 def dispatch (toks : List String) : String :=
